@@ -128,12 +128,12 @@ theorem isNode_mem_nodes (S : List (Option H)) (hS : S.length < 2 ^ 64) {pos : P
     rw [ht]
     exact hmem
 
-/-- a hash occurs at one position only (collision-freeness, distinct leaves that are not
-parent hashes) -/
-theorem isNode_functional (cr : CR H) (S : List (Option H)) (hS : S.length < 2 ^ 64)
-    (hnd : (S.filterMap id).Nodup) (hleaf : ∀ x : H, some x ∈ S → ∀ a b : H, x ≠ ph a b)
-    (hnz : ∀ x : H, some x ∈ S → x ≠ (zero : H)) (p p' : Pos) (h : H)
-    (h1 : IsNode S (p, h)) (h2 : IsNode S (p', h)) : p = p' := by
+/-- a hash occurs at one position only, from the FINITE hypothesis `NodesDistinct (Forest.mk S)`
+(no non-zero hash sits at two places of the forest with slots `S`); only `NZ` is asked of the
+hash function -/
+theorem isNode_functional_nd (nz : NZ H) (S : List (Option H)) (hS : S.length < 2 ^ 64)
+    (hnz : ∀ x : H, some x ∈ S → x ≠ (zero : H)) (hd : NodesDistinct (Forest.mk S))
+    (p p' : Pos) (h : H) (h1 : IsNode S (p, h)) (h2 : IsNode S (p', h)) : p = p' := by
   obtain ⟨lf, hm⟩ := isNode_mem_nodes S hS h1
   obtain ⟨lf', hm'⟩ := isNode_mem_nodes S hS h2
   have hne : h ≠ zero := by
@@ -141,10 +141,19 @@ theorem isNode_functional (cr : CR H) (S : List (Option H)) (hS : S.length < 2 ^
     have := (Prod.mk.inj he).2
     rw [this]
     intro hz
-    rw [chunkHash_eq_zero_iff cr.nonzero S hnz, ha] at hz
+    rw [chunkHash_eq_zero_iff nz.nonzero S hnz, ha] at hz
     cases hz
-  exact (nodes_hash_unique cr (Forest.mk S) hS hnd
-    (fun x hx a b => hleaf x (Forest.mem_liveLeaves.mp hx) a b) p p' h lf lf' hne hm hm').1
+  exact (hd.unique hne hm hm').1
+
+/-- a hash occurs at one position only (collision-freeness, distinct leaves that are not
+parent hashes) -/
+theorem isNode_functional (cr : CR H) (S : List (Option H)) (hS : S.length < 2 ^ 64)
+    (hnd : (S.filterMap id).Nodup) (hleaf : ∀ x : H, some x ∈ S → ∀ a b : H, x ≠ ph a b)
+    (hnz : ∀ x : H, some x ∈ S → x ≠ (zero : H)) (p p' : Pos) (h : H)
+    (h1 : IsNode S (p, h)) (h2 : IsNode S (p', h)) : p = p' :=
+  isNode_functional_nd cr.toNZ S hS hnz
+    (nodesDistinct_of_CR cr (Forest.mk S) hS hnd
+      (fun x hx a b => hleaf x (Forest.mem_liveLeaves.mp hx) a b)) p p' h h1 h2
 
 /-- a position holds one hash only -/
 theorem isNode_pos_unique (S : List (Option H)) (hS : S.length < 2 ^ 64) (p : Pos) (h h' : H)
